@@ -93,6 +93,10 @@ def getattr(I, st, v, name):
             if where is not None:
                 yield st, None  # a class attribute whose value is None (e.g. Assembly._BLOCK_TYPE) exists
                 return
+            if "__list__" in e.attrs and name in _LIST_METHODS:
+                # instance of a class deriving from list: methods of list not overridden by the class
+                yield st, list_method(I, st, e.attrs["__list__"], name)
+                return
             ga, _ = I.class_lookup(e.cls, "__getattr__")
             if ga is not None:
                 yield from I.call(ga, [v, name], {}, st)
@@ -133,6 +137,17 @@ def getattr(I, st, v, name):
             yield st, enum_member(I, st, v, name)
             return
         m, where = I.class_lookup(v, name)
+        if m is None and name == "__init__":
+            # Class.__init__(obj) of a class that defines none: object.__init__, which accepts the instance only
+            if any(isinstance(c, BuiltinClass) and c.name != "object" for c in I.mro(v)):
+                raise Unsupported("__init__ inherited from a builtin base of %s" % v.name)
+
+            def _obj_init(I, st, a, k):
+                if len(a) != 1 or k:
+                    raise Unsupported("object.__init__ with arguments")
+                yield st, None
+            yield st, bi("object.__init__", _obj_init)
+            return
         if m is None:
             yield st, exc("AttributeError", "type object '%s' has no attribute '%s'" % (v.name, name))
             return
@@ -150,6 +165,16 @@ def getattr(I, st, v, name):
             return
         if v.name == "float" and name == "fromhex":
             raise Unsupported("float.fromhex")
+        if v.name == "list" and name == "__init__":
+            def _list_init(I, st, a, k):
+                # list.__init__(self[, iterable]) on an instance of a list subclass: clear, then extend
+                if k or not a or len(a) > 2 or not (isinstance(a[0], Ref) and "__list__" in _b.getattr(st.get(a[0]), "attrs", {})):
+                    raise Unsupported("list.__init__ on %r" % (a[:1],))
+                items = I.iterate(a[1], st) if len(a) == 2 else []
+                st.get(st.get(a[0]).attrs["__list__"]).items[:] = items
+                yield st, None
+            yield st, bi("list.__init__", _list_init)
+            return
         raise Unsupported("attribute %s of builtin class %s" % (name, v.name))
     if isinstance(v, SuperVal):
         selfv = v.self_val
@@ -311,6 +336,9 @@ def class_attr_for_instance(I, st, inst, cls, name):
     yield st, bind_member(I, st, m, inst, cls)
 
 
+_LIST_METHODS = ("append", "extend", "insert", "pop", "remove", "index", "count", "clear", "reverse", "sort", "copy")
+
+
 def bind_member(I, st, m, inst, cls):
     if isinstance(m, FuncVal):
         d = m.decorators()
@@ -328,7 +356,7 @@ def module_attr(I, st, mv, name):
             I.trust("runLog", "A7: armi.runLog calls are effect-free for the model")
             return bi("runLog." + name, lambda I, st, a, k: iter([(st, None)]))
         try:
-            return I.thaw(I.resolve_global(mv.info, name), st)
+            return I.thaw_global(I.resolve_global(mv.info, name), st)
         except KeyError:
             sub = extract.load_module(mv.info.name + "." + name)
             if sub is not None:
@@ -568,8 +596,9 @@ def ops_sum(a, b):
 
 
 def sorted_values(I, st, items, key=None, reverse=False):
-    """Sort a concrete-length list.  Concrete keys only (symbolic keys: Unsupported)."""
+    """Sort a concrete-length list.  Concrete keys, objects with __lt__, symbolic numbers / tuples (forking)."""
     M = _m()
+    items = list(items)  # snapshot: list.sort() writes the result of one path into the very list object passed in
     if key is not None:
         keys = []
         cur = st
@@ -605,15 +634,88 @@ def sorted_values(I, st, items, key=None, reverse=False):
     if all(obj_lt(I, cur, k) for k in keys):
         yield from sort_objects(I, cur, items, keys, reverse)
         return
+    if all(is_number(k) for k in keys) or all(isinstance(k, tuple) for k in keys):
+        # symbolic numbers / tuples (compared lexicographically, element by element): same scheme, `<` by key_lt
+        yield from sort_objects(I, cur, items, keys, reverse, lt_fn=key_lt)
+        return
     raise Unsupported("sorting symbolic keys")
+
+
+def key_lt(I, st, x, y):
+    """x < y for sort keys: numbers (possibly symbolic), strings, tuples of those (lexicographic; a later element is
+    only compared when all earlier ones are equal, as CPython does); objects with __lt__.  yields (state, bool | z3 | Exc)"""
+    M = _m()
+    if isinstance(x, tuple) and isinstance(y, tuple):
+        def rec(s, i):
+            if i == len(x) or i == len(y):
+                yield s, len(x) < len(y)
+                return
+            for s1, same in I.branch(s, M.eq_values(I, s, x[i], y[i])):
+                if same:
+                    yield from rec(s1, i + 1)
+                else:
+                    yield from key_lt(I, s1, x[i], y[i])
+        yield from rec(st, 0)
+        return
+    yield from M.compare(I, st, "Lt", x, y)
 
 
 def obj_lt(I, st, k):
     return isinstance(k, Ref) and st.get(k).kind == "obj" and I.class_lookup(st.get(k).cls, "__lt__")[0] is not None
 
 
-def sort_objects(I, st, items, keys, reverse):
-    raise Unsupported("sorting objects by __lt__")
+def sort_objects(I, st, items, keys, reverse, lt_fn=None):
+    """sorted() of objects whose class defines __lt__ (keys[i] is the object compared for items[i]).  Every ordered
+    pair is compared with the class's __lt__ (forking on symbolic outcomes); if the outcomes form a strict weak
+    order the result is THE stable sorted permutation (A3), which is what CPython's sort returns for any consistent
+    `<`; otherwise the result would depend on the sorting algorithm: Unsupported."""
+    if reverse:
+        raise Unsupported("sorting objects by __lt__ with reverse")
+    n = len(items)
+    if n > 6:
+        raise Unsupported("sorting more than 6 objects by __lt__")
+    pairs = [(i, j) for i in range(n) for j in range(n) if i != j]
+
+    def rec(s, p, lt):
+        if p == len(pairs):
+            yield s, lt
+            return
+        i, j = pairs[p]
+        if lt_fn is not None:
+            outs = list(lt_fn(I, s, keys[i], keys[j]))
+        else:
+            m, _ = I.class_lookup(s.get(keys[i]).cls, "__lt__")
+            outs = list(I.call(m, [keys[i], keys[j]], {}, s))
+        for s1, r in outs:
+            if isinstance(r, Exc):
+                yield s1, r
+                continue
+            if isinstance(r, Opaque):
+                raise Unsupported("__lt__ returns an uninterpreted value")
+            for s2, b in I.branch(s1, I.truth(r, s1)):
+                d = dict(lt)
+                d[(i, j)] = bool(b)
+                yield from rec(s2, p + 1, d)
+
+    for s, lt in rec(st, 0, {}):
+        if isinstance(lt, Exc):
+            yield s, lt
+            continue
+        inc = lambda a, b: a == b or (not lt[(a, b)] and not lt[(b, a)])
+        for a in range(n):
+            for b in range(n):
+                if a != b and lt[(a, b)] and lt[(b, a)]:
+                    raise Unsupported("__lt__ is not asymmetric on the sorted objects")
+                for c in range(n):
+                    if len({a, b, c}) == 3:
+                        if lt[(a, b)] and lt[(b, c)] and not lt[(a, c)]:
+                            raise Unsupported("__lt__ is not transitive on the sorted objects")
+                        if inc(a, b) and inc(b, c) and not inc(a, c):
+                            raise Unsupported("__lt__ is not a strict weak order on the sorted objects")
+        # stable: i before j iff items[i] < items[j], or they are equivalent and i < j
+        order = sorted(range(n), key=lambda i: (sum(1 for j in range(n) if j != i and lt[(j, i)]), i))
+        I.trust("sorted", "A3: sorted/list.sort is the stable ordering permutation w.r.t. <")
+        yield s, [items[i] for i in order]
 
 
 def dict_method(I, st, ref, name):
@@ -860,6 +962,11 @@ def str_method(I, st, s, name):
             ca = [conc(x) for x in a]
             ck = {kk: conc(v) for kk, v in k.items()}
         except Unsupported:
+            if name == "format" and isinstance(s, str):
+                r = _format_symbolic(s, a, k)
+                if r is not None:
+                    yield st, r
+                    return
             if name in ("format", "join"):
                 yield st, Opaque("str." + name)
                 return
@@ -876,6 +983,59 @@ def str_method(I, st, s, name):
         yield st, r
 
     return bi("str." + name, fn)
+
+
+def _format_symbolic(fmt, args, kwargs):
+    """fmt.format(*args, **kwargs) where some arguments are symbolic ints: -> FmtStr, or None (caller falls back to an
+    uninterpreted string) when a field is outside the modelled forms"""
+    import string as _string
+    from .values import FmtStr, fmt_int_field, build_fmtstr
+
+    parts = []
+    auto = 0
+    try:
+        fields = list(_string.Formatter().parse(fmt))
+    except ValueError:
+        return None
+    for lit, fname, spec, conv in fields:
+        if lit:
+            parts.append(("lit", lit))
+        if fname is None:
+            continue
+        if conv is not None or (spec and ("{" in spec)):
+            return None
+        if fname == "":
+            if auto is None:
+                return None
+            key, auto = auto, auto + 1
+        elif fname.isdigit():
+            if auto:
+                return None
+            key, auto = int(fname), None
+        elif fname.isidentifier():
+            key = fname
+        else:
+            return None
+        try:
+            v = args[key] if isinstance(key, int) else kwargs[key]
+        except (IndexError, KeyError):
+            return None
+        v = as_arith(v) if not isinstance(v, str) else v
+        if isinstance(v, str):
+            try:
+                parts.append(("lit", format(v, spec or "")))
+            except ValueError:
+                return None
+        elif isinstance(v, FmtStr) and not spec:
+            parts.extend(v.parts)
+        elif (isinstance(v, int) and not isinstance(v, bool)) or (is_z3(v) and z3.is_int(v)):
+            p = fmt_int_field(v, spec)
+            if p is None:
+                return None
+            parts.append(p)
+        else:
+            return None
+    return build_fmtstr(parts)
 
 
 # ============================================================================ builtin classes as callables
@@ -999,10 +1159,57 @@ def to_int(I, st, v):
         yield st, v
     elif is_z3(v) and z3.is_real(v):
         yield st, ops.z_trunc(v)
+    elif isinstance(v, _FmtStr()):
+        yield from _int_of_fmtstr(I, st, v)
     elif isinstance(v, Opaque):
         raise Unsupported("int() of an uninterpreted string")
     else:
         yield st, exc("TypeError", "int() argument")
+
+
+def _FmtStr():
+    from .values import FmtStr
+
+    return FmtStr
+
+
+def _int_of_fmtstr(I, st, v):
+    """int(s) for a formatted string made of decimal digits only: literal digit runs and NON-NEGATIVE int fields that
+    are zero-filled (or not padded).  The value is the decimal reading of the concatenation; the number of digits of a
+    field is max(width, number of digits of its value): case split on the magnitude (< 10, < 100, ... < 10**9)."""
+    for p in v.parts:
+        if p[0] == "lit" and not (p[1].isdigit() and p[1].isascii()):
+            raise Unsupported("int() of a formatted string with non-digit text")
+        if p[0] == "int" and p[3] != "0" and p[2] > 1:
+            raise Unsupported("int() of a formatted string with space padding")
+
+    def rec(s, i, val):
+        if i == len(v.parts):
+            yield s, val
+            return
+        p = v.parts[i]
+        if p[0] == "lit":
+            yield from rec(s, i + 1, val * (10 ** len(p[1])) + int(p[1]))
+            return
+        t, width = p[1], p[2]
+        for s1, nonneg in I.branch(s, t >= 0):
+            if not nonneg:
+                raise Unsupported("int() of a formatted string with a possibly negative field")
+            lo = 0
+            for nd in range(1, 11):
+                if nd == 10:
+                    if I.feasible(s1, t >= 10 ** 9):
+                        raise Unsupported("int() of a formatted string with a field >= 10**9")
+                    break
+                hi = 10 ** nd
+                cond = z3.And(t >= lo, t < hi) if lo else t < hi
+                if I.feasible(s1, cond):
+                    s2 = s1.fork()
+                    s2.pc.append(cond)
+                    yield from rec(s2, i + 1, val * (10 ** max(width, nd)) + t)
+                lo = hi
+
+    yield from rec(st, 0, 0)
 
 
 def to_float(I, st, v):
@@ -1017,10 +1224,13 @@ def to_float(I, st, v):
             return
         if f != f:
             yield st, Opaque("nan")  # float("nan"): the NaN literal (A1: no real value is NaN)
-        elif f in (float("inf"), float("-inf")):
-            raise Unsupported("float('inf')")
-        else:
-            yield st, to_frac(f)
+            return
+        if f in (math.inf, -math.inf):
+            from .values import Inf
+
+            yield st, Inf(1 if f > 0 else -1)
+            return
+        yield st, to_frac(f)
     elif is_z3(v) and z3.is_int(v):
         yield st, z3.ToReal(v)
     elif is_z3(v):
@@ -1087,7 +1297,9 @@ def make_builtins(I):
                     yield st, e.shape[0]
             elif e.kind == "obj":
                 m, _ = I.class_lookup(e.cls, "__len__")
-                if m is None:
+                if m is None and "__list__" in e.attrs:
+                    yield st, len(st.get(e.attrs["__list__"]).items)
+                elif m is None:
                     yield st, exc("TypeError", "object has no len()")
                 else:
                     yield from I.call(m, [v], {}, st)
@@ -1136,6 +1348,8 @@ def make_builtins(I):
                     yield st, (min(items) if which == "min" else max(items))
                     return
                 raise Unsupported("min/max over symbolic tuples")
+            if any(isinstance(x, _m().Inf) for x in items):
+                raise Unsupported("min/max with float('inf')")
             if not all(is_number(x) for x in items):
                 if all(isinstance(x, str) for x in items):
                     yield st, (min(items) if which == "min" else max(items))
@@ -1316,6 +1530,36 @@ def make_builtins(I):
 
     add("print", _print)
 
+    def _ord(I, st, a, k):
+        v = a[0]
+        if isinstance(v, (str, bytes)):
+            if len(v) == 1:
+                yield st, ord(v)
+            else:
+                yield st, exc("TypeError", "ord() expected a character, but string of length %d found" % len(v))
+        elif isinstance(v, Opaque):
+            raise Unsupported("ord() of an uninterpreted string")
+        else:
+            yield st, exc("TypeError", "ord() expected string of length 1")
+
+    add("ord", _ord)
+
+    def _chr(I, st, a, k):
+        v = as_arith(a[0])
+        if isinstance(v, bool) or not isinstance(v, int):
+            if is_z3(v):
+                raise Unsupported("chr() of a symbolic integer")
+            if isinstance(v, bool):
+                yield st, chr(v)
+            else:
+                yield st, exc("TypeError", "an integer is required")
+        elif 0 <= v < 0x110000:
+            yield st, chr(v)
+        else:
+            yield st, exc("ValueError", "chr() arg not in range(0x110000)")
+
+    add("chr", _chr)
+
     def _id(I, st, a, k):
         v = a[0]
         if isinstance(v, Ref):
@@ -1382,6 +1626,16 @@ def make_builtins(I):
                 yield from I.call(m, [v], {}, st)
                 return
             yield st, 1000000 + v.id
+            return
+        if isinstance(v, tuple) and v and all((isinstance(x, int) and not isinstance(x, bool)) or (is_z3(x) and z3.is_int(x)) for x in v):
+            # hash of a tuple of ints: a function of the elements (uninterpreted); on concrete elements its value is
+            # CPython's deterministic tuple hash, so that (in)equality of hashes of concrete tuples is decided as it runs
+            f = I.func("pyhash_int_tuple%d" % len(v), *([z3.IntSort()] * (len(v) + 1)))
+            t = f(*[z3val(x) for x in v])
+            if all(isinstance(x, int) for x in v):
+                I.trust("hash-int-tuple", "A3: hash() of a tuple of ints is CPython's deterministic tuple hash (no hash randomisation for ints)")
+                I.axiom(("pyhash",) + tuple(v), t == _b.hash(tuple(v)))
+            yield st, t
             return
         yield st, Opaque("hash")
 
@@ -1512,6 +1766,8 @@ def isinstance_model(I, st, v, cls):
         if e.kind == "obj":
             if isinstance(cls, ClassVal):
                 return I.is_subclass(e.cls, cls)
+            if isinstance(cls, BuiltinClass) and cls.name == "list" and "__list__" in e.attrs:
+                return True
             return isinstance(cls, BuiltinClass) and cls.name == "object"
         kind = {"list": ("list",), "deque": ("deque",), "dict": ("dict",), "set": ("set", "frozenset"), "nd": ("ndarray",),
                 "symlist": ("list",)}[e.kind]
@@ -1792,6 +2048,11 @@ def make_ext_modules(I):
     E["operator"] = {"mul": bi("operator.mul", _op2("Mult")), "truediv": bi("operator.truediv", _op2("Div")),
                      "add": bi("operator.add", _op2("Add")), "sub": bi("operator.sub", _op2("Sub"))}
     E["collections.abc"] = {"Iterable": BuiltinClass("collections.abc.Iterable")}
+    import string as _string
+
+    # string: only the constant alphabets (exact values of CPython's string module)
+    E["string"] = {n: _b.getattr(_string, n) for n in ("ascii_uppercase", "ascii_lowercase", "ascii_letters", "digits", "hexdigits",
+                                                       "octdigits", "punctuation", "whitespace", "printable")}
     E["warnings"] = {"warn": bi("warnings.warn", lambda I, st, a, k: iter([(st, None)]))}
 
     from . import npmodel, bytesmodel
